@@ -555,14 +555,16 @@ class PrenexPrefixVariant(Variant):
                 W.touch(ex, x)
             if self.nvars > 1:
                 ex.assume(z3.Distinct(self.qv))
-            return fn, [f], {"args": [(list(self.L), self.m)]}
+            self.passed = list(self.L)
+            return fn, [f], {"args": [(self.passed, self.m)]}
         if self.method == "walk_not":
             f = z3.Const("formula", Node)
             W.touch(ex, f)
             ex.assume(S.op(f) == S.NOT)
             W.learn(ex, f, op=S.NOT, k=1)
             self.f = f
-            return fn, [f], {"args": [(list(self.L), self.m)]}
+            self.passed = list(self.L)
+            return fn, [f], {"args": [(self.passed, self.m)]}
         raise KeyError(self.method)
 
     def set_items(self, ex, s):
@@ -577,7 +579,10 @@ class PrenexPrefixVariant(Variant):
             return [("returns-prefix-and-matrix", z3.BoolVal(False))]
         W = self.world
         L, m = r
-        goals = []
+        # the prefix list handed in is the memoised result of the body (shared by every other occurrence of that body): the
+        # callback builds a new list and leaves this one as it is
+        untouched = len(self.passed) == len(self.L) and all(a is b for a, b in zip(self.passed, self.L))
+        goals = [("memoised-prefix-of-the-body-not-modified", z3.BoolVal(bool(untouched)))]
         if self.method == "walk_not":
             if is_node(m):
                 W.touch(ex, m)
